@@ -1,6 +1,7 @@
 package main
 
 import (
+	"strconv"
 	"bufio"
 	"encoding/json"
 	"fmt"
@@ -66,6 +67,8 @@ type JobResult struct {
 	SolverTimeS  float64             `json:"solver_time_s"`
 	DecidedBy    map[string]int      `json:"decided_by"`
 	Unknown      int                 `json:"unknown"`
+	CrossChecked  int                `json:"cross_checked"`
+	Disagreements int                `json:"solver_disagreements"`
 	Ended        map[string]int      `json:"ended"`
 	Inconclusive map[string]int      `json:"inconclusive,omitempty"`
 	CutThird     int                 `json:"cut_third_party"`
@@ -258,6 +261,12 @@ func runJob(ld *loaded, job *Job) *JobResult {
 		}
 	}
 	pf := NewPortfolio(order, lim[0], lim[1], lim[2], job.SmtLog)
+	pf.crossEvery = 64
+	if v := os.Getenv("VERIF_CROSSCHECK"); v != "" {
+		if n, err := strconv.Atoi(v); err == nil {
+			pf.crossEvery = n
+		}
+	}
 	defer pf.Close()
 	ex := NewExplorer(pf)
 	for _, k := range job.Known {
@@ -307,6 +316,10 @@ func runJob(ld *loaded, job *Job) *JobResult {
 	res.Queries = pf.Queries
 	res.DecidedBy, res.SolverTimeS = pf.Stats()
 	res.Unknown = pf.Unknown
+	res.CrossChecked, res.Disagreements = pf.CrossChecked, pf.Disagreements
+	if pf.Disagreements > 0 && res.Error == "" {
+		res.Error = fmt.Sprintf("SOLVER-DISAGREEMENT: %d of %d cross-checked queries were decided differently by two solvers", pf.Disagreements, pf.CrossChecked)
+	}
 	res.Ended = ex.ended
 	res.Inconclusive = ex.inconcl
 	res.CutThird = ex.cutThird
